@@ -96,8 +96,9 @@ def check_prog(ctx, r, prog, n):
     for it in range(n * 2):
         texts = draw_args(rng, prog, inst)
         ct = canon_args(canon, prog, inst, texts)
-        label = rng.choice([None, "", "lbl", "with \"quote\""])
-        admin = rng.choice([None, "adm1", ""])
+        # the builder passes label and admin through as given: no trimming, no case folding, "" is not "unset" for the admin
+        label = rng.choice([None, "", "lbl", "with \"quote\"", " vault", "vault\n", " ", "\tx ", "Üpper Case", "a" * 200])
+        admin = rng.choice([None, "adm1", "", " adm", "ADM1", "adm\n"])
         funds = rng.choice([None, draw_funds(rng)])
         salt = rng.choice([None, None, base64.b64encode(bytes(rng.randrange(256) for _ in range(rng.choice([0, 1, 8, 64])))).decode()])
         code_id = rng.choice([0, 1, 2**64 - 1, rng.randrange(10**6)])
